@@ -615,7 +615,7 @@ func runC05(a runArgs) error {
 	e := NewEmitter("C05", "Dedup.Run")
 	e.Preamble = "From GoCoap Require Import Base.Bytes Dedup.Model Dedup.Spec."
 	e.ShardSize = 120
-	e.Rule = "histories of 3-12 events on a fresh udp/client.Conn over an in-memory session (thorough tier: also over a real dtls/server.Session on a scripted net.Conn): CON/NON requests (message IDs from a small pool incl. 0, 65535 and IDs near the connection's own counter; random tokens; optional No-Response option) with handler behaviours none / response(code incl. Empty, options, payload) / replaced response message (w.SetMessage, own token) / Reset, request-monitor drops, pings, messages sent by the application (separate responses, CON acknowledged by the harness / NON), interleaved with Age (virtual time shifts of the response cache around the 247 s lifetime, never within 300 ms of a boundary) and housekeeping ticks; plus concurrent families (one goroutine per received message): 2-4 copies of one request, and 2-3 copies each of two or three confirmable requests with different message IDs, first handlers held until all other copies wait on their locks. Distinct = distinct history; non-trivial = contains a duplicate (same message ID twice)."
+	e.Rule = "histories of 3-12 events on a fresh udp/client.Conn over an in-memory session and (a sample; ten times as many in the thorough tier) over a real dtls/server.Session on a scripted net.Conn: CON/NON requests (message IDs from a small pool incl. 0, 65535 and IDs near the connection's own counter; random tokens; optional No-Response option) with handler behaviours none / response(code incl. Empty, options, payload) / replaced response message (w.SetMessage, own token) / Reset, request-monitor drops, pings, messages sent by the application (separate responses, CON acknowledged by the harness / NON), interleaved with Age (virtual time shifts of the response cache around the 247 s lifetime, never within 300 ms of a boundary) and housekeeping ticks; plus concurrent families (one goroutine per received message): 2-4 copies of one request, and 2-3 copies each of two or three confirmable requests with different message IDs, first handlers held until all other copies wait on their locks. Distinct = distinct history; non-trivial = contains a duplicate (same message ID twice)."
 	rng := NewRng(a.seed)
 
 	emitOn := func(evs []c05Ev, getMID int32, dtls bool) {
@@ -725,7 +725,7 @@ func runC05(a runArgs) error {
 	}
 
 	// structured histories: the original event set, and the extended one
-	n, nx := 150, 190
+	n, nx := 300, 420
 	if a.tier == "thorough" {
 		n, nx = 1500, 2500
 	}
@@ -748,7 +748,7 @@ func runC05(a runArgs) error {
 			}
 		}
 	}
-	nconc, nmixed := 24, 16
+	nconc, nmixed := 40, 30
 	if a.tier == "thorough" {
 		nconc, nmixed = 200, 150
 	}
@@ -797,16 +797,19 @@ func runC05(a runArgs) error {
 		emit([]c05Ev{z, z, {Kind: "drop", Typ: typ, MID: 79}, {Kind: "ping", MID: 79}, z}, 0x1000)
 		emit([]c05Ev{{Kind: "drop", Typ: typ, MID: 80}, {Kind: "drop", Typ: typ, MID: 80}, {Kind: "req", Typ: typ, MID: 80, Tok: tok, Code: 1, Beh: "resp", RCode: 69}}, 0x1000)
 	}
+	// the same histories on the second session type: a real dtls/server.Session over a scripted net.Conn
+	// (a sample in the quick tier)
+	ndtls, ndtlsConc := 60, 8
 	if a.tier == "thorough" {
-		// the same histories on the second session type: a real dtls/server.Session over a scripted net.Conn
-		for c := 0; c < 600; c++ {
-			evs, getMID := genC05HistoryX(rng, "quick", c%2 == 1)
-			emitOn(evs, getMID, true)
-		}
-		for c := 0; c < 60; c++ {
-			ev, getMID := firstReq(c%2 == 1, false, nil)
-			emitConc([]c05Ev{ev}, []int{2 + rng.Intn(3)}, getMID, true)
-		}
+		ndtls, ndtlsConc = 600, 60
+	}
+	for c := 0; c < ndtls; c++ {
+		evs, getMID := genC05HistoryX(rng, "quick", c%2 == 1)
+		emitOn(evs, getMID, true)
+	}
+	for c := 0; c < ndtlsConc; c++ {
+		ev, getMID := firstReq(c%2 == 1, false, nil)
+		emitConc([]c05Ev{ev}, []int{2 + rng.Intn(3)}, getMID, true)
 	}
 	return e.Flush(a.out)
 }
